@@ -23,6 +23,7 @@ import (
 	"bytes"
 	"encoding/hex"
 	"fmt"
+	"io"
 	"os"
 	"path/filepath"
 	"regexp"
@@ -30,6 +31,7 @@ import (
 	"sort"
 	"strconv"
 	"strings"
+	"sync"
 	"unicode/utf8"
 
 	"github.com/rogpeppe/go-internal/testscript"
@@ -110,8 +112,13 @@ func (t *tT) Run(name string, f func(testscript.T)) {
 // via the custom command, 'E' child environment via `exec envdump` + grab, 'S' ts.Setenv(k, v).
 type item struct {
 	kind byte
-	text string // H, T: the raw script line (no NL)
-	k, v string // S
+	text string // H, T, C, L: the raw script line (no NL)
+	k, v string // S: ts.Setenv(k, v); T: name and value of the c02_holds_on question
+	// C (cmp / cmpenv line): the command's flags and the texts of the two files
+	neg, env     bool
+	text1, text2 string
+	// L (a line of built-in commands): the argument vector intended by construction
+	want []string
 }
 
 type script struct {
@@ -120,6 +127,8 @@ type script struct {
 	// apiMisuse: ts.Setenv was called with a key containing '=' (list and map then disagree by
 	// construction; the child-agrees oracle does not apply to such a script)
 	apiMisuse bool
+	// archive: the file section of the script (txtar), for the cmp / cp / exists / stdin modes
+	archive string
 }
 
 type childObs struct {
@@ -218,9 +227,11 @@ func (sc *script) text() string {
 			fmt.Fprintf(&sb, "exec envdump\ngrab %d\n", i)
 		case 'S':
 			fmt.Fprintf(&sb, "apiset %d\n", i)
+		case 'C', 'L':
+			sb.WriteString(it.text + "\n")
 		}
 	}
-	return sb.String()
+	return sb.String() + sc.archive
 }
 
 var runSeq int
@@ -280,7 +291,8 @@ func runImpl(work string, scripts []*script, continueOnError bool) []*scriptObs 
 // ---------------------------------------------------------------- model side
 
 type modelObs struct {
-	lines  map[int]string // H/T items: "fail" | "args w*"
+	holds  map[int]string // T items: answer of c02_holds_on
+	lines  map[int]string // H/T/L items: "fail" | "args w*"; C items: true|false
 	probes map[int][]string
 	child  map[int]*childObs
 }
@@ -301,13 +313,63 @@ func unhexes(fs []string) []string {
 	return out
 }
 
+// askHolds: put the c02_holds_on question after every test line
+var askHolds = true
+
+// extraModels: further model processes; scripts are independent of each other (every script
+// starts with a reset), so one conversation is split over several processes
+var extraModels []*common.Model
+
 func runModel(m *common.Model, scripts []*script, obs []*scriptObs) ([]*modelObs, error) {
+	ms := append([]*common.Model{m}, extraModels...)
+	if len(scripts) < 2*len(ms) || len(ms) == 1 {
+		return runModel1(m, scripts, obs)
+	}
+	out := make([]*modelObs, len(scripts))
+	errs := make([]error, len(ms))
+	var wg sync.WaitGroup
+	per := (len(scripts) + len(ms) - 1) / len(ms)
+	for j := range ms {
+		lo, hi := j*per, min((j+1)*per, len(scripts))
+		if lo >= hi {
+			continue
+		}
+		wg.Add(1)
+		go func(j, lo, hi int) {
+			defer wg.Done()
+			r, err := runModel1(ms[j], scripts[lo:hi], obs[lo:hi])
+			if err != nil {
+				errs[j] = err
+				return
+			}
+			copy(out[lo:hi], r)
+		}(j, lo, hi)
+	}
+	wg.Wait()
+	for _, e := range errs {
+		if e != nil {
+			return nil, e
+		}
+	}
+	return out, nil
+}
+
+func runModel1(m *common.Model, scripts []*script, obs []*scriptObs) ([]*modelObs, error) {
 	var reqs []string
-	type slot struct{ s, i int }
+	type slot struct {
+		s, i  int
+		holds bool
+	}
 	var slots []slot
+	b01 := func(b bool) string {
+		if b {
+			return "1"
+		}
+		return "0"
+	}
 	for s, sc := range scripts {
 		reqs = append(reqs, strings.TrimSpace("reset "+common.Hex([]byte(obs[s].cd))+" "+hexes(obs[s].vars)))
-		slots = append(slots, slot{s, -1})
+		slots = append(slots, slot{s, -1, false})
 		for i, it := range sc.items {
 			switch it.kind {
 			case 'H', 'T':
@@ -318,8 +380,16 @@ func runModel(m *common.Model, scripts []*script, obs []*scriptObs) ([]*modelObs
 				reqs = append(reqs, "child")
 			case 'S':
 				reqs = append(reqs, "setenv "+common.Hex([]byte(it.k))+" "+common.Hex([]byte(it.v)))
+			case 'L':
+				reqs = append(reqs, "line "+common.Hex([]byte(it.text)))
+			case 'C':
+				reqs = append(reqs, "cmp "+b01(it.neg)+" "+b01(it.env)+" 61 62 "+common.Hex([]byte(it.text1))+" "+common.Hex([]byte(it.text2)))
 			}
-			slots = append(slots, slot{s, i})
+			slots = append(slots, slot{s, i, false})
+			if it.kind == 'T' && askHolds {
+				reqs = append(reqs, "holds "+common.Hex([]byte(it.text))+" "+common.Hex([]byte(it.k))+" "+common.Hex([]byte(it.v)))
+				slots = append(slots, slot{s, i, true})
+			}
 		}
 	}
 	ans, err := m.Ask(reqs)
@@ -328,16 +398,20 @@ func runModel(m *common.Model, scripts []*script, obs []*scriptObs) ([]*modelObs
 	}
 	out := make([]*modelObs, len(scripts))
 	for s := range scripts {
-		out[s] = &modelObs{lines: map[int]string{}, probes: map[int][]string{}, child: map[int]*childObs{}}
+		out[s] = &modelObs{holds: map[int]string{}, lines: map[int]string{}, probes: map[int][]string{}, child: map[int]*childObs{}}
 	}
 	for j, sl := range slots {
 		if sl.i < 0 {
 			continue
 		}
+		if sl.holds {
+			out[sl.s].holds[sl.i] = ans[j]
+			continue
+		}
 		it := scripts[sl.s].items[sl.i]
 		a := ans[j]
 		switch it.kind {
-		case 'H', 'T':
+		case 'H', 'T', 'L', 'C':
 			out[sl.s].lines[sl.i] = a
 		case 'P':
 			out[sl.s].probes[sl.i] = unhexes(strings.Fields(a)[1:])
@@ -546,12 +620,31 @@ func newTracker() *tracker {
 }
 
 func (tr *tracker) set(k, v string) { tr.val[k], tr.known[k] = v, true }
+
+// current: the value of a name of validNames as far as the generator knows it exactly; a name
+// never assigned in the script is unset (none of validNames is in the initial environment)
+func (tr *tracker) current(k string) (string, bool) {
+	known, assigned := tr.known[k]
+	if !assigned {
+		return "", true
+	}
+	return tr.val[k], known
+}
 func (tr *tracker) unknown(k string) { tr.known[k] = false }
 
 // genEnvLine writes one `env ...` history line and updates the tracker.
 func genEnvLine(r *common.RNG, tr *tracker, ft feature) string {
 	var sb strings.Builder
 	sb.WriteString("env")
+	// every expansion of the line happens while the line is tokenized, before the first
+	// assignment of the same line takes effect: chains read the state at the start of the line
+	before := &tracker{val: map[string]string{}, known: map[string]bool{}}
+	for k, v := range tr.val {
+		before.val[k] = v
+	}
+	for k, v := range tr.known {
+		before.known[k] = v
+	}
 	n := 1 + r.Intn(3)
 	if r.Chance(2, 3) {
 		n = 1
@@ -581,10 +674,18 @@ func genEnvLine(r *common.RNG, tr *tracker, ft feature) string {
 			sb.WriteString(k + "=" + v)
 			tr.set(k, v)
 			ft["assign-plain"] = true
-		case 7: // copy through expansion
+		case 7: // copy through expansion: the value of the source at this moment (env K=$OTHER chains)
 			src := common.Pick(r, validNames)
-			sb.WriteString(k + "=" + common.Pick(r, []string{"$" + src, "${" + src + "}", "${" + src + "@R}", "x${" + src + "}y", "$" + src + "$" + src}))
-			tr.unknown(k)
+			form := r.Intn(5)
+			sb.WriteString(k + "=" + []string{"$" + src, "${" + src + "}", "${" + src + "@R}", "x${" + src + "}y", "$" + src + "$" + src}[form])
+			if strings.ContainsAny(k, "$'#") {
+				tr.unknown(k)
+			} else if sv, known := before.current(src); known {
+				tr.set(k, []string{sv, sv, regexp.QuoteMeta(sv), "x" + sv + "y", sv + sv}[form])
+				ft["assign-chain-known"] = true
+			} else {
+				tr.unknown(k)
+			}
 			ft["assign-expansion"] = true
 		case 8: // display form (no '=')
 			sb.WriteString(k)
@@ -769,6 +870,9 @@ func compareScript(sc *script, o *scriptObs, mo *modelObs) []mismatch {
 	for i, it := range sc.items {
 		switch it.kind {
 		case 'T':
+			if h, ok := mo.holds[i]; ok && h != "true" {
+				out = append(out, mismatch{i, "c02_holds_on", h, "", fmt.Sprintf("the model violates the property statements on this input (model-side witness): line %q, name %q, value %q", it.text, it.k, it.v)})
+			}
 			ma := mo.lines[i]
 			inv := o.inv[i]
 			impl := "not-invoked"
@@ -1319,7 +1423,264 @@ func buildScript(r *common.RNG, sidx, ncases int, execEvery int) (*script, []*or
 	p := add(item{kind: 'P'})
 	trk[p] = snapshot()
 	add(item{kind: 'X'})
+	for _, oc := range ocs {
+		if oc.key != "" {
+			sc.items[oc.item].k, sc.items[oc.item].v = oc.key, oc.value
+		}
+	}
+	for i := range sc.items {
+		if it := &sc.items[i]; it.kind == 'T' && it.k == "" {
+			it.k, it.v = common.Pick(r, assignKeys), genValue(r)
+		}
+	}
 	return sc, ocs, trk, feats
+}
+
+
+// ---------------------------------------------------------------- cmp / cmpenv and arguments of built-in commands
+
+// one script per case, run without ContinueOnError: the verdict of the script is the verdict
+// of its single line that can fail
+
+var textAtoms = []string{"plain text ", "'quoted' ", "# hash ", "tab\t", "cr\r", "é日本 ", "\\ back ", "(x|y)* ", "end.", "\n", "\n", "  ", "a=b ", "\"dq\" ",
+	"\u00a0", "- -", "{}", "@R", "\xff\xfe", "100% "}
+
+type cmpCase struct {
+	sc      *script
+	kind    string
+	expect  string // PASS | FAIL by construction
+	citem   int    // index of the C item (cmp modes)
+	lines   []string
+	keys    []string
+	unknown bool // expectation not known by construction (exotic $-forms): model comparison only
+}
+
+func startsAlnum(s string) bool {
+	if s == "" {
+		return false
+	}
+	c := s[0]
+	return c == '_' || c >= '0' && c <= '9' || c >= 'a' && c <= 'z' || c >= 'A' && c <= 'Z'
+}
+
+// genCmpCase: text2 is a template with references, text1 what the harness knows the expansion to be
+func genCmpCase(r *common.RNG) *cmpCase {
+	sc := &script{names: probeNames}
+	cc := &cmpCase{sc: sc}
+	vals := map[string]string{}
+	nk := 1 + r.Intn(3)
+	for i := 0; i < nk; i++ {
+		k := common.Pick(r, validNames)
+		v := genValue(r)
+		if r.Chance(1, 3) {
+			v = common.Pick(r, []string{"$" + k, "${" + k + "}", "$" + common.Pick(r, validNames), "a$b", "${", "$$", "x $" + k + " y"})
+		}
+		v = strings.ReplaceAll(v, "\x00", "")
+		vals[k] = v
+		h := "env " + sqGo(k+"="+v)
+		sc.items = append(sc.items, item{kind: 'H', text: h})
+		cc.lines = append(cc.lines, "H"+h)
+		cc.keys = append(cc.keys, k)
+	}
+	var raw, exp strings.Builder
+	np := 1 + r.Intn(6)
+	for i := 0; i < np; i++ {
+		switch r.Intn(9) {
+		case 0, 1:
+			k := common.Pick(r, validNames)
+			next := common.Pick(r, textAtoms)
+			if startsAlnum(next) {
+				next = "." + next
+			}
+			raw.WriteString("$" + k + next)
+			exp.WriteString(vals[k] + next)
+		case 2, 3:
+			k := common.Pick(r, validNames)
+			raw.WriteString("${" + k + "}")
+			exp.WriteString(vals[k])
+		case 4:
+			k := common.Pick(r, validNames)
+			raw.WriteString("${" + k + "@R}")
+			exp.WriteString(regexp.QuoteMeta(vals[k]))
+		case 5:
+			raw.WriteString("$$ ")
+			exp.WriteString("$ ") // the initial environment binds "$" to "$"
+		case 6:
+			if r.Chance(1, 2) {
+				// exotic form: no expectation by construction, model comparison only
+				raw.WriteString(common.Pick(r, dollarForms) + " ")
+				cc.unknown = true
+			} else {
+				raw.WriteString("$ ")
+				exp.WriteString("$ ")
+			}
+		default:
+			a := common.Pick(r, textAtoms)
+			raw.WriteString(a)
+			exp.WriteString(a)
+		}
+	}
+	text2 := raw.String() + "\n"
+	expanded := exp.String() + "\n"
+	// (no atom and no value starts with the marker prefix "-- ", so no line of either text can be
+	// taken for a file marker of the archive)
+	env, neg := r.Chance(2, 3), r.Chance(1, 4)
+	var text1 string
+	switch r.Intn(5) {
+	case 0, 1:
+		text1 = expanded
+		cc.kind = "file1=expansion"
+	case 2:
+		text1 = text2
+		cc.kind = "file1=file2"
+	case 3:
+		text1 = expanded[:len(expanded)-1] + "x\n"
+		cc.kind = "file1=perturbed"
+	default:
+		// file1 holds a reference itself: it must not be expanded
+		k := common.Pick(r, validNames)
+		text1 = "$" + k + "\n"
+		text2 = "$" + k + "\n"
+		expanded = vals[k] + "\n"
+		cc.unknown = false
+		cc.kind = "file1-has-reference"
+	}
+	want2 := text2
+	if env {
+		want2 = expanded
+	}
+	ok := (text1 == want2) != neg
+	cc.expect = map[bool]string{true: "PASS", false: "FAIL"}[ok]
+	cmd := "cmp"
+	if env {
+		cmd = "cmpenv"
+	}
+	if neg {
+		cmd = "! " + cmd
+	}
+	line := cmd + " a b"
+	cc.kind = cmd + ":" + cc.kind
+	sc.items = append(sc.items, item{kind: 'C', text: line, neg: neg, env: env, text1: text1, text2: text2})
+	cc.citem = len(sc.items) - 1
+	cc.lines = append(cc.lines, "C"+line)
+	sc.archive = "-- a --\n" + text1 + "-- b --\n" + text2
+	return cc
+}
+
+var fileNames = []string{"a b.txt", "q'x.txt", "p$q.txt", "h#x", "d$F", "t\tx", "${F}", "$$", "two  sp", " lead", "é 日本", "*", "a'b'' c", "x=y", "-n", "c\rd", "\u00a0n", "$SRC", "#"}
+
+// genArgCase: cp / exists / stdin with arguments that come out of variables
+func genArgCase(r *common.RNG) *cmpCase {
+	sc := &script{names: probeNames}
+	cc := &cmpCase{sc: sc, kind: "builtin-args", expect: "PASS"}
+	name := common.Pick(r, fileNames)
+	addL := func(line string, want ...string) {
+		sc.items = append(sc.items, item{kind: 'L', text: line, want: want})
+		cc.lines = append(cc.lines, "L"+line)
+	}
+	h := "env " + sqGo("F="+name) + " SRC=src"
+	sc.items = append(sc.items, item{kind: 'H', text: h})
+	cc.lines = append(cc.lines, "H"+h)
+	ref := common.Pick(r, []string{"$F", "${F}"})
+	if r.Chance(1, 5) {
+		// negative control: were the value expanded again / split again, the file would be found
+		name = common.Pick(r, []string{"$SRC", "src nope", "${SRC}", "'src'"})
+		sc.items[0].text = "env " + sqGo("F="+name) + " SRC=src"
+		cc.lines[0] = "H" + sc.items[0].text
+		addL("exists "+ref, "exists", name)
+		cc.expect = "FAIL"
+		cc.kind = "builtin-args:must-fail"
+	} else {
+		addL("cp $SRC "+ref, "cp", "src", name)
+		addL("exists "+ref, "exists", name)
+		addL("exists "+sqGo(name), "exists", name)
+		addL("cp "+ref+" out", "cp", name, "out")
+		addL("cmp out src", "cmp", "out", "src")
+		addL("stdin "+ref, "stdin", name)
+		addL("exec catin", "exec", "catin")
+		addL("cmp stdout src", "cmp", "stdout", "src")
+		addL("! exists "+ref+".x", "!", "exists", name+".x")
+	}
+	sc.archive = "-- src --\ncontent of src: " + genPlain(r, 3) + "\n"
+	return cc
+}
+
+func (rn *runner) fileModes(r *common.RNG, nCmp, nArgs int) {
+	var cases []*cmpCase
+	for i := 0; i < nCmp; i++ {
+		cases = append(cases, genCmpCase(r))
+	}
+	for i := 0; i < nArgs; i++ {
+		cases = append(cases, genArgCase(r))
+	}
+	rn.runFileCases(cases)
+}
+
+func (rn *runner) runFileCases(cases []*cmpCase) {
+	scs := make([]*script, len(cases))
+	for i, c := range cases {
+		scs[i] = c.sc
+	}
+	obs := runImpl(rn.f.Work, scs, false)
+	save := askHolds
+	askHolds = false
+	mos, err := runModel(rn.m, scs, obs)
+	askHolds = save
+	if err != nil {
+		rn.res.Violate(common.Violation{Kind: "correspondence", Oracle: "model-process", Key: "model-died", Detail: err.Error(), Input: map[string]string{}})
+		return
+	}
+	// report the smallest failing cases: visit the cases in order of size
+	order := make([]int, len(cases))
+	for i := range order {
+		order[i] = i
+	}
+	size := func(c *cmpCase) int { return len(c.sc.archive) + len(strings.Join(c.lines, "\n")) }
+	sort.SliceStable(order, func(a, b int) bool { return size(cases[order[a]]) < size(cases[order[b]]) })
+	for _, i := range order {
+		c := cases[i]
+		o, mo := obs[i], mos[i]
+		rn.res.Count("file-mode:" + c.kind)
+		rn.res.Count("file-mode-verdict:" + o.verdict)
+		text := strings.Join(c.lines, "\n")
+		rn.res.Case("file:"+text+c.sc.archive, true)
+		in := map[string]string{"script": common.Hex([]byte(text)), "script_text": fmt.Sprintf("%q", text),
+			"archive": common.Hex([]byte(c.sc.archive)), "archive_text": fmt.Sprintf("%q", c.sc.archive), "expect": c.expect, "mode": c.kind}
+		// model-free: the verdict known by construction
+		if !c.unknown && o.verdict != c.expect {
+			rn.res.Count("oracle-fails:" + strings.SplitN(c.kind, ":", 2)[0])
+			name := "cmpenv-expands-once"
+			if strings.HasPrefix(c.kind, "builtin") {
+				name = "builtin-args-expand-once"
+			} else if !strings.Contains(c.kind, "cmpenv") {
+				name = "cmp-no-expand"
+			}
+			in["oracle"] = name
+			rn.res.Violate(common.Violation{Kind: "impl-violation", Oracle: name, Input: in, Impl: o.verdict, Model: c.expect,
+				Key: name + ":" + common.Hex([]byte(text+c.sc.archive)),
+				Detail: "verdict of the script differs from the one known by construction (the harness knows the values and therefore the expanded text / the argument vectors)"})
+		}
+		rn.res.Count("oracle:file-verdict")
+		// against the model
+		for j, it := range c.sc.items {
+			switch it.kind {
+			case 'C':
+				want := map[string]string{"true": "PASS", "false": "FAIL"}[mo.lines[j]]
+				if want != o.verdict {
+					rn.res.Count("mismatch:do_cmd_cmp")
+					rn.res.Violate(common.Violation{Kind: "correspondence", Oracle: "do_cmd_cmp", Input: in, Model: mo.lines[j], Impl: o.verdict,
+						Key: "do_cmd_cmp:" + common.Hex([]byte(text+c.sc.archive)), Detail: "model of cmp/cmpenv and the verdict of the script differ"})
+				}
+			case 'L':
+				want := strings.TrimSpace("args " + hexes(it.want))
+				if mo.lines[j] != want {
+					rn.res.Count("mismatch:ts_parse-builtin-args")
+					rn.res.Violate(common.Violation{Kind: "correspondence", Oracle: "ts_parse-builtin-args", Input: in, Model: mo.lines[j], Impl: want,
+						Key: "largs:" + common.Hex([]byte(text)), Detail: fmt.Sprintf("model's words for %q differ from the argument vector intended by construction", it.text)})
+				}
+			}
+		}
+	}
 }
 
 // ---------------------------------------------------------------- stateless checks of the standard-library models
@@ -1541,6 +1902,10 @@ func main() {
 	if filepath.Base(os.Args[0]) == "envdump" {
 		envdumpMain()
 	}
+	if filepath.Base(os.Args[0]) == "catin" {
+		io.Copy(os.Stdout, os.Stdin)
+		os.Exit(0)
+	}
 	f := common.ParseFlags()
 	res := common.NewResult("C02", f.Tier, f.Seed)
 	if f.Work == "" {
@@ -1554,6 +1919,12 @@ func main() {
 		os.Exit(2)
 	}
 	defer m.Close()
+	for i := 0; i < 3; i++ {
+		if em, err := common.StartModel(f.Model); err == nil {
+			extraModels = append(extraModels, em)
+			defer em.Close()
+		}
+	}
 	rn := &runner{f: f, res: res, m: m, shrunk: map[string]int{}}
 	if c := strings.Fields(m.Ask1("consts")); len(c) == 2 {
 		specialBytes = string(common.UnHex(c[0])) + string(common.UnHex(c[1])) + "$\n"
@@ -1567,7 +1938,11 @@ func main() {
 	self, err := os.Executable()
 	if err == nil {
 		os.Remove(filepath.Join(helperDir, "envdump"))
+		os.Remove(filepath.Join(helperDir, "catin"))
 		err = os.Symlink(self, filepath.Join(helperDir, "envdump"))
+		if err == nil {
+			err = os.Symlink(self, filepath.Join(helperDir, "catin"))
+		}
 	}
 	if err != nil {
 		fmt.Fprintln(os.Stderr, "cannot install the envdump helper:", err)
@@ -1628,7 +2003,16 @@ func main() {
 		rn.batch(scs, ocs, trk, feats)
 	}
 
-	// 3. the standard-library models on their own
+	// 3. cmp / cmpenv and the arguments of cp / exists / stdin: one script per case
+	nCmp, nArgs := 2400, 400
+	if f.Tier == "thorough" {
+		nCmp, nArgs = 40000, 4000
+	}
+	for done := 0; done < nCmp+nArgs; done += 2800 {
+		rn.fileModes(r.Fork(), min(nCmp, 2400), min(nArgs, 400))
+	}
+
+	// 4. the standard-library models on their own
 	rn.stdlibChecks(r.Fork(), nStd)
 	rn.expandChecks(r.Fork(), nStd)
 	rn.sqChecks(r.Fork(), 2000)
@@ -1639,7 +2023,9 @@ func main() {
 		"after histories of env K=V lines (quoted, half-quoted, plain, through expansion, display form, odd keys) and ts.Setenv calls; every line is one evaluation (argv vs ts_parse), "+
 		"probes compare ts.Getenv with getenv, child observations compare the environment block of the helper with child_env; lines that do not reach args are re-run alone for the verdict; "+
 		"oracles without the model: quote-roundtrip, plain-split, expand-once, regex-exact, latest-wins, child-agrees, child-pwd; then %d strings each for quote_meta / utf8_ok / re_literal vs regexp, regexp/syntax, unicode/utf8 and os_expand vs os.Expand. "+
-		"A line is non-trivial when it contains a quote, $, #, CR or tab; distinct = distinct line text", nScripts, nCases, nStd)
+		"after every test line the model is asked c02_holds_on (the boolean form of the statements) for the line and a name/value of the case; "+
+		"%d scripts with one cmp/cmpenv line each (second file a template with $K ${K} ${K@R} $$ and exotic forms, first file the expansion known by construction / the raw text / a perturbation / a reference itself, verdict by construction and against do_cmd_cmp) and %d scripts passing variable-held file names (blanks, quotes, $, #, tab, CR) to cp / exists / stdin, with a must-fail control; env K=$OTHER chains are followed by the latest-wins tracker. "+
+		"A line is non-trivial when it contains a quote, $, #, CR or tab; distinct = distinct line text", nScripts, nCases, nStd, nCmp, nArgs)
 	res.Write(f.Out)
 }
 
@@ -1658,6 +2044,10 @@ func (rn *runner) replay(v common.Violation) {
 			rn.stdlibChecks(common.NewRNG(rn.f.Seed), 2000)
 			rn.expandChecks(common.NewRNG(rn.f.Seed), 2000)
 		}
+		return
+	}
+	if arch, ok := v.Input["archive"]; ok {
+		rn.replayFileCase(string(common.UnHex(v.Input["script"])), string(common.UnHex(arch)), v.Input["expect"], v.Input["mode"])
 		return
 	}
 	text := string(common.UnHex(v.Input["script"]))
@@ -1737,3 +2127,35 @@ func (rn *runner) replayCmp(kind, x, model, impl string) {
 }
 
 var _ = hex.EncodeToString
+
+// replayFileCase rebuilds a cmp / cmpenv / builtin-arguments case from its replay form.
+func (rn *runner) replayFileCase(text, archive, expect, mode string) {
+	sc := &script{names: probeNames, archive: archive}
+	cc := &cmpCase{sc: sc, kind: mode, expect: expect, unknown: expect == ""}
+	for _, l := range strings.Split(text, "\n") {
+		if l == "" {
+			continue
+		}
+		cc.lines = append(cc.lines, l)
+		switch l[0] {
+		case 'H':
+			sc.items = append(sc.items, item{kind: 'H', text: l[1:]})
+		case 'L':
+			// the intended argument vector is not stored: compare the verdict only
+			sc.items = append(sc.items, item{kind: 'H', text: l[1:]})
+		case 'C':
+			it := item{kind: 'C', text: l[1:]}
+			f := strings.Fields(l[1:])
+			if len(f) > 0 && f[0] == "!" {
+				it.neg = true
+				f = f[1:]
+			}
+			it.env = len(f) > 0 && f[0] == "cmpenv"
+			if i := strings.Index(archive, "-- b --\n"); i >= 0 && strings.HasPrefix(archive, "-- a --\n") {
+				it.text1, it.text2 = archive[len("-- a --\n"):i], archive[i+len("-- b --\n"):]
+			}
+			sc.items = append(sc.items, it)
+		}
+	}
+	rn.runFileCases([]*cmpCase{cc})
+}
